@@ -86,7 +86,7 @@ Lemma it_next_mi : forall i ctx its s,
   it_next spn run Check i ctx its s
   = (let '(r, its', s') := it_next spn run Emit i ctx its s in (istrip r, its', s')).
 Proof.
-  induction i as [a lo hi|a sep lo hi lead trail|j IHj|f j IHj|f j IHj|a|a lo hi]; intros ctx its s;
+  induction i as [a lo hi|a sep lo hi lead trail|j IHj|f j IHj|f j IHj|a|a lo hi ck]; intros ctx its s;
     cbn [it_next].
   - destruct its; try reflexivity. rewrite rep_next_mi.
     destruct (rep_next run Emit a lo hi ctx n s) as [[r c'] s']. reflexivity.
